@@ -6,9 +6,11 @@
     * the RTT smoothing ([record_rtt], [update_rtt_min]), the inflation / hold / HAI tests and the
       0.55 / 0.25 latch thresholds are IEEE binary64 computations on Coq primitive floats, bit for bit;
     * [target_bps] arithmetic is done by the code in f64 on integers below 2^53 and truncated
-      ([x * permille / 1000.0], [as u64]); it is modelled as exact integer arithmetic with floor
-      (the quotients have fractional parts that are multiples of 1/1000 while the accumulated
-      rounding error is below 2^-20, so floor agrees; the correspondence compares [target_bps] on every tick);
+      ([x * permille / 1000.0], [as u64]); it is modelled as exact integer arithmetic with floor.
+      The literal f64 rendering is in [Model/LinkCcF.v]; [Proofs/LinkCcFP.v] proves the two equal on
+      every link step (the quotients are exact or at least 1/1000 - 2^-25 away from an integer while
+      each rounding moves a value by at most 2^-25), and the correspondence compares [target_bps]
+      with the real controller on every tick;
     * libm [exp] is not modelled: the value of [loss_ewma] after the update is an input of the tick.
     No proofs in this file. *)
 From Coq Require Import Floats.
